@@ -37,9 +37,22 @@ def gen_cases(rnd, n, lang):
         # the join table may be empty or have no partner at all: under LEFT JOIN the null record must still be as wide as the join header
         B = rnd.choice([[['1', 'u'], ['2', 'v']], [['1', 'u'], ['2', 'v']], [], [['9', 'w']]])
         left = rnd.random() < 0.4
-        mode = rnd.choice(['plain', 'plain', 'distinct', 'dcount', 'top', 'group', 'except'])
+        mode = rnd.choice(['plain', 'plain', 'distinct', 'dcount', 'top', 'group', 'except', 'update'])
         if mode == 'except' and join:
             join = False
+        if mode == 'update':
+            # UPDATE hands the INPUT header to the writer unchanged, join or not
+            k = rnd.randrange(len(ih))
+            text = rnd.choice(['update set a%d = "u"', 'UPDATE a SET a%d = "u"', 'update a%d = a1 + "!"']) % (k + 1)
+            if join:
+                text += ' join b on a1 == b1'
+            if rnd.random() < 0.3:
+                text += ' where a1 != "1"'
+            if lang == 'js':
+                text = text.replace('"', "'")
+            cases.append({'text': text, 'dc': False, 'ih': ih if has_header else None, 'jh': (jh if has_header else None) if join else None, 'infos': [], 'except': None,
+                          'A': A, 'B': B if join else None, 'nkinds': 2, 'update': True})
+            continue
         infos, texts = [], []
         if mode == 'except':
             cols = sorted(set(rnd.randrange(len(ih)) for _ in range(rnd.randint(1, 2))))
@@ -244,7 +257,7 @@ def run_impl_py(cases):
 
 
 def model_headers(cases):
-    lines = ['header ' + json.dumps({'dc': c['dc'], 'ih': c['ih'], 'jh': c['jh'], 'infos': c['infos'], 'except': c['except']}, separators=(',', ':')) for c in cases]
+    lines = ['header ' + json.dumps({'dc': c['dc'], 'ih': c['ih'], 'jh': c['jh'], 'infos': c['infos'], 'except': c['except'], 'update': bool(c.get('update'))}, separators=(',', ':')) for c in cases]
     return [json.loads(o) for o in common.run_model(lines)]
 
 
